@@ -768,6 +768,9 @@ class SegmentationImage:
 
         labels = np.atleast_1d(labels)
         if labels.size == 0:
+            # nothing to reassign, but relabel=True must still be honored
+            if relabel and self.nlabels > 0:
+                self.relabel_consecutive()
             return
 
         dtype = self.data.dtype  # keep the original dtype
